@@ -62,6 +62,7 @@ class Sched:
     self.steps = 0
     self.shared = {}
     self.step_files = []          # file of the line each step stopped at (for choosing preemption points)
+    self.step_threads = []        # which thread ran at each step
     self._where = ['?'] * self.n
 
   # ---- called from worker threads
@@ -119,6 +120,7 @@ class Sched:
       cur = self.policy(self.steps, cur, runnable)
       self.steps += 1
       self.step_files.append(self._where[cur])
+      self.step_threads.append(cur)
       self.go[cur].release()
       if not self.ctrl.acquire(timeout=60):
         raise common.MachineryError('scheduler: a thread did not yield within 60 s')
@@ -295,7 +297,7 @@ def run_schedule(names, policy):
     threads.append({'prog': n, 'result': str(s.results[i]), 'seqs': s.seqs[i],
                     'regions': [{'name': r, 'guard': s.obs[i][r][0], 'tracking': s.obs[i][r][1]}
                                 for r in s.region_order[i]]})
-  return {'threads': threads, 'steps': s.steps, 'step_files': s.step_files}
+  return {'threads': threads, 'steps': s.steps, 'step_files': s.step_files, 'step_threads': s.step_threads}
 
 
 def sequential(step, cur, runnable):
@@ -415,6 +417,23 @@ def main():
             jobs.append((tuple(rec['names']), 'preempt', [[s_, 1], [s2, 0]]))
       for k in range(2 if quick else 20):
         jobs.append((tuple(rec['names']), 'random', rng.randrange(1 << 30)))
+      # two preemptions (thread 0 stops inside a section, thread 1 runs into its own section, thread 0
+      # resumes): needed for state that is saved and restored around a section.  Exhaustive over the lines
+      # of the file holding the flag for pairs of programs that use the same flag, sampled otherwise.
+      a, b = rec['names']
+      group = {'edit': 'history.py', 'build': 'building.py', 'nested': 'building.py', 'fail': 'building.py'}
+      if a in group and group.get(b) == group[a]:
+        th = rec.get('step_threads', [])
+        n0 = sum(1 for t in th if t == 0)
+        f = group[a]
+        k0 = [s_ for s_ in range(1, n0) if s_ < len(files) and files[s_] == f]
+        k1 = [s_ - n0 for s_ in range(n0, steps) if s_ < len(files) and files[s_] == f]
+        combos = [(x, y) for x in k0 for y in k1 if y > 0]
+        cap = 1200 if (a, b) == ('edit', 'edit') else (80 if quick else 1500)
+        if len(combos) > cap:
+          combos = rng.sample(combos, cap)
+        for x, y in combos:
+          jobs.append((tuple(rec['names']), 'preempt', [[x, 1], [x + y, 0]]))
     triples = [tuple(rng.choice(PROGS) for _ in range(3)) for _ in range(12 if quick else 200)]
     for t in triples:
       for k in range(2):
